@@ -571,7 +571,7 @@ def run(ctx):
     rng = ctx.rng
     variant = detect_variant()
     ctx.coverage["diskdict_variant"] = variant
-    nh = ctx.n(110, 1200)
+    nh = int(os.environ.get("C14_HISTORIES", 0)) or ctx.n(110, 1200)     # C14_HISTORIES: self-test knob
     hists = [gen_history(rng, ctx.quick) for _ in range(nh)]
     # the two collisions of hash_method='b' as fixed histories (known finding probe, always run)
     probes = [
